@@ -350,7 +350,7 @@ func (ex *Exec) applyContract(spec *FuncSpec, info calleeInfo, c *ssa.CallCommon
 		penv.vars[k] = v
 	}
 	for _, cl := range spec.Clauses {
-		if cl.Kind == "ensures" {
+		if cl.Kind == "ensures" || cl.Kind == "maintains" {
 			g := ex.evalSpec(cl.Expr, penv)
 			ex.assumeHere(g.T)
 		}
